@@ -91,6 +91,13 @@ def eval_case(case, workdir, tdnames):
     if case["form"] == "list":
         args = [case["dialect"], "-nostdinc", "-I", sut.FAKE_LIBC]
         os.environ.pop("CPATH", None)
+    elif case["form"] == "str-path-with-blank":
+        # a string cpp_args is ONE argument (documented): an include path containing a blank must survive
+        link = os.path.join(workdir, "my fake libc")
+        if not os.path.islink(link):
+            os.symlink(sut.FAKE_LIBC, link)
+        args = "-I" + link
+        os.environ.pop("CPATH", None)
     else:
         args = case["dialect"]
         os.environ["CPATH"] = sut.FAKE_LIBC
@@ -176,12 +183,14 @@ def run_shard(spec):
                             continue
                         manual = spec["tier"] != "quick" or di == (i + 1) % 4
                         cases.append({"headers": [h], "dialect": d, "form": form, "use_types": use, "manual": manual})
+                if spec["tier"] != "quick" or i % 8 == spec["shard"] % 8:
+                    cases.append({"headers": [h], "dialect": "", "form": "str-path-with-blank", "use_types": use, "manual": i % 3 == 0})
         else:
             rnd = random.Random(spec["rseed"])
             for _ in range(spec["n"]):
                 k = rnd.randrange(2, 21)
                 hs = rnd.sample(hdrs, k)
-                cases.append({"headers": hs, "dialect": rnd.choice(DIALECTS), "form": rnd.choice(["list", "str"]),
+                cases.append({"headers": hs, "dialect": rnd.choice(DIALECTS), "form": rnd.choice(["list", "str", "list", "str", "str-path-with-blank"]),
                               "use_types": True, "manual": True})
         for c in cases:
             vs, ntd = eval_case(c, work, tdn)
